@@ -867,7 +867,27 @@ func (f *transformationCallable) clone(v reflect.Value) (reflect.Value, error) {
 		return undefined, err
 	}
 
-	return reflect.ValueOf(dest), nil
+	return reflect.ValueOf(restoreNulls(dest)), nil
+}
+
+// restoreNulls replaces the nil interface values that the JSON
+// decoder produces for null with the evaluator's null, so that a
+// null member of the copy is still there (and still null) for the
+// pattern, the update and the caller, as it is in the original.
+func restoreNulls(v interface{}) interface{} {
+	switch x := v.(type) {
+	case nil:
+		return null
+	case []interface{}:
+		for i := range x {
+			x[i] = restoreNulls(x[i])
+		}
+	case map[string]interface{}:
+		for k := range x {
+			x[k] = restoreNulls(x[k])
+		}
+	}
+	return v
 }
 
 // A regexCallable represents a JSONata regular expression. It's
